@@ -63,7 +63,42 @@ def gen_consts():
             if os.path.exists(pin) and name != 'Fns.lean':
                 cur = open(out).read() if os.path.exists(out) else ''
                 if cur != open(pin).read(): open(out, 'w').write(open(pin).read())
+    # the text outside the translated function bodies (derives, fields, impl headers, signatures, attributes, skipped bodies)
+    try:
+        sk = os.path.join(BUILD, 'skeleton_changes.json')
+        if os.path.exists(sk): os.remove(sk)
+        r = subprocess.run([sys.executable, os.path.join(ROOT, 'tools', 'gen_skeleton.py'), REPO, os.path.join(BUILD, 'gen_fns_report.json'), '--out', sk], capture_output=True, text=True)
+        msgs.append((r.stdout + r.stderr).strip()[-400:])
+        if r.returncode not in (0, 3): json.dump({'(skeleton tool failed)': {'added': [(r.stdout + r.stderr)[-300:]], 'removed': [], 'n_added': 1, 'n_removed': 0}}, open(sk, 'w'))
+    except Exception as e:
+        msgs.append('gen_skeleton: %s' % e)
     return ok, '; '.join(msgs), failed
+
+def skeleton_obligation(prop, mods):
+    """differences between the current and the pinned skeleton in the files that concern the property"""
+    try: changes = json.load(open(os.path.join(BUILD, 'skeleton_changes.json')))
+    except Exception: return []
+    if not changes: return []
+    rep = json.load(open(os.path.join(BUILD, 'gen_fns_report.json')))
+    anchors = {}
+    for l in open(os.path.join(ROOT, 'properties.jsonl')):
+        if l.strip():
+            j = json.loads(l); anchors[j['id']] = set(j.get('anchors', {}).get('files', []))
+    owned = set(e['src'].rsplit(':', 1)[0] for e in rep['translated']) | set(f for fs in anchors.values() for f in fs)
+    if prop in ('C08', 'C13'): mine = None
+    else:
+        mine = set(anchors.get(prop, ()))
+        text = ''
+        for m in mods:
+            p_ = os.path.join(LEAN, *m.split('.')) + '.lean'
+            if os.path.exists(p_): text += open(p_).read()
+        for e in rep['translated']:
+            if re.search(r'GenFn\.' + re.escape(e['name']) + r'(?![A-Za-z_0-9])', text): mine.add(e['src'].rsplit(':', 1)[0])
+    out = []
+    for f, c in changes.items():
+        if mine is None or f in mine or f not in owned:
+            out.append({'file': f, 'added': c['added'][:4], 'removed': c['removed'][:4]})
+    return out
 
 def theorems_of(module_file):
     """names of theorems declared in a Lean file, qualified by the enclosing namespaces"""
@@ -164,6 +199,7 @@ def lean_check(prop, tier='quick'):
             res['translator']['definitions_mentioned_by_theorems'] = sum(1 for n_ in names if re.search(r'(?<![A-Za-z_0-9])' + re.escape(n_) + r'(?![A-Za-z_0-9])', text))
         except Exception:
             pass
+        skel = skeleton_obligation(prop, mods)
         proof_mods = [m for m in mods if m.startswith('Sucds.Props.') or m.startswith('Sucds.Proofs.')]
         all_thms = []
         for m in proof_mods:
@@ -183,6 +219,14 @@ def lean_check(prop, tier='quick'):
             res['discharged'] = max(0, len(all_thms) - max(bad, 1))
             return res
         res['discharged'] = len(all_thms)
+        if skel:
+            # the theorems are about the pinned derives / fields / impl headers / signatures; this tree has others
+            res['ok'] = False; res['skeleton_changes'] = skel
+            res['errors'].append('text outside the translated function bodies differs from the pinned tree: ' + '; '.join('%s: +%s -%s' % (c['file'], [a[:120] for a in c['added'][:2]], [a[:120] for a in c['removed'][:2]]) for c in skel[:4]))
+            res.setdefault('failed_modules', []).extend('crate skeleton (%s)' % c['file'] for c in skel)
+            res['obligations'] += 1
+            return res
+        res['obligations'] += 1; res['discharged'] += 1
         hits = scan_forbidden(mods)
         if hits:
             res['ok'] = False; res['errors'] += ['forbidden construct: ' + h for h in hits]
